@@ -682,6 +682,87 @@ func (g *genCtx) malformed(sers []string) []*History {
 			})
 		}
 
+		// -- servers with a receive limit below the protocol maximum: headers that
+		// announce more than the limit (limit+1, 2*limit, 16M-1), every frame type,
+		// before HELLO and in an established session; and whole scenarios over the
+		// limited servers / the websocket server with a tiny outbound queue
+		emit("frames/raw-"+ser+"/overlimit-frametypes", nil, func(h *History, r *rng) {
+			vp := validPayloads(ser)
+			for _, lim := range rawLimits {
+				eff := 1 << 24
+				if lim > 0 {
+					eff = 512
+					for eff < lim {
+						eff <<= 1
+					}
+				}
+				announced := []int{eff + 1, 2 * eff, 1<<24 - 1, eff, eff - 1}
+				for _, est := range []bool{false, true} {
+					for ft := 0; ft < 8; ft++ {
+						for ai, n := range announced {
+							if n >= 1<<24 {
+								n = 1<<24 - 1
+							}
+							if g.quick && (ai > 2 || (ft != 0 && ai > 0)) {
+								continue
+							}
+							for bi, body := range [][]byte{nil, vp[1]} {
+								if g.quick && ft != 0 && bi > 0 {
+									continue
+								}
+								s := len(h.Sessions)
+								h.Sessions = append(h.Sessions, SessionSpec{Transport: "raw", Ser: ser, Limit: lim, Roles: "none"})
+								if est {
+									h.Steps = append(h.Steps, stepAttach(s))
+								} else {
+									h.Steps = append(h.Steps, Step{S: s, Op: "open"})
+								}
+								fr := append([]byte{byte(ft), byte(n >> 16), byte(n >> 8), byte(n)}, body...)
+								h.Steps = append(h.Steps,
+									Step{S: s, Op: "bytes", Hex: hx(fr), Note: fmt.Sprintf("overlimit/type=%d/limit=%d,announced=%d,established=%v", ft, lim, n, est)},
+									Step{S: s, Op: "bytes", Hex: hx(rawFrame(0, vp[1]))}, Step{Op: "sleep", Ms: 2}, stepClose(s))
+							}
+						}
+					}
+				}
+			}
+		})
+		emit("frames/raw-"+ser+"/limited-servers-scenario", nil, func(h *History, r *rng) {
+			for _, lim := range rawLimits[1:] {
+				base := len(h.Sessions)
+				for i := 0; i < 3; i++ {
+					h.Sessions = append(h.Sessions, SessionSpec{Transport: "raw", Ser: ser, Limit: lim, Roles: "none"})
+					h.Steps = append(h.Steps, stepAttach(base+i))
+				}
+				big := vStr(strings.Repeat("x", lim))
+				h.Steps = append(h.Steps,
+					stepMsg(base, "", mk(32, vID(1), vDict(), vURI("lim.t"))), stepMsg(base+1, "", mk(64, vID(1), vDict(), vURI("lim.p"))), stepSync(base), stepSync(base+1))
+				for k := 0; k < 40; k++ {
+					h.Steps = append(h.Steps,
+						Step{S: base + 2, Op: "msg", Note: fmt.Sprintf("limited/limit=%d/publish", lim), M: mk(16, vRef("req"), vDict("acknowledge", vBool(true)), vURI("lim.t"), vList(vInt(k)))},
+						Step{S: base + 2, Op: "msg", Note: fmt.Sprintf("limited/limit=%d/call", lim), M: mk(48, vRef("req"), vDict(), vURI("lim.p"), vList(vInt(k)))})
+				}
+				h.Steps = append(h.Steps,
+					Step{S: base + 2, Op: "msg", Note: fmt.Sprintf("limited/message-larger-than-limit/limit=%d", lim), M: mk(16, vRef("req"), vDict(), vURI("lim.t"), vList(big))},
+					Step{S: base + 2, Op: "msg", Re: true, Note: fmt.Sprintf("limited/limit=%d/after", lim), M: mk(16, vRef("req"), vDict(), vURI("lim.t"), vList(vInt(1)))},
+					stepSync(base), stepSync(base+1), stepSync(base+2))
+				for i := 0; i < 3; i++ {
+					h.Steps = append(h.Steps, stepClose(base+i))
+				}
+			}
+			// websocket server with an outbound queue of 2: the router has to drop, never block or die
+			base := len(h.Sessions)
+			for i := 0; i < 2; i++ {
+				h.Sessions = append(h.Sessions, SessionSpec{Transport: "ws", Ser: ser, Limit: 1})
+				h.Steps = append(h.Steps, stepAttach(base+i))
+			}
+			h.Steps = append(h.Steps, stepMsg(base, "", mk(32, vID(1), vDict("match", vStr("prefix")), vURI("lim."))), stepSync(base))
+			for k := 0; k < 200; k++ {
+				h.Steps = append(h.Steps, Step{S: base + 1, Op: "msg", Note: "limited/ws-small-queue/publish", M: mk(16, vRef("req"), vDict("exclude_me", vBool(false)), vURI("lim.q"), vList(vInt(k)))})
+			}
+			h.Steps = append(h.Steps, stepSync(base+1), stepSync(base))
+		})
+
 		// -- invalid serializer payloads in a well-formed frame (rawsocket) and message (websocket)
 		for _, tr := range []string{"raw", "ws"} {
 			for _, est := range []bool{false, true} {
